@@ -32,7 +32,7 @@ Proof.
 Qed.
 
 Lemma b0_nonneg : nonneg (bal b0).
-Proof. intro a. do 14 (destruct a as [|a]; [vm_compute; congruence|]). vm_compute. congruence. Qed.
+Proof. intro a. do 16 (destruct a as [|a]; [vm_compute; congruence|]). vm_compute. congruence. Qed.
 
 Example txs_wf : Forall (tx_wf e0) [t_odd; t_low; t_fwd; t_sds; t_rev].
 Proof. repeat constructor; simpl; lia. Qed.
@@ -150,3 +150,39 @@ Example factory_nonvacuous :
   Pb {| m_env := e0; m_tx := t_fact_fail; m_out := Ok; m_before := b3;
         m_after := bank_of [999999911401; 88606; 0; 50; 0; 0; 100; 0; 0; 1000; 0; 0; 999997; 10] 5000000000007 |} = false.
 Proof. vm_compute. repeat split; reflexivity. Qed.
+
+(** The truncating mirror of SyncStateDBWithAccount refutes the supply clause: an EOA (0) calls the wasm precompile
+    `execute` with 7 unibi of funds for the wasm contract W (14, a 32-byte address); the bank send is mirrored into
+    the StateDB account PH (15) = last 20 bytes of W and the commit mints bank(W) there. *)
+Definition b4 : bank := bank_of [1000000000000; 0; 0; 50; 0; 0; 100; 0; 0; 1000; 0; 0; 1000000; 0; 0; 0] 101000001000000.
+Definition t_wasm := mktx (legacy 1000000000000) 2023000 0 14%nat (EvmOk [OTransfer 0 14 7000000000000]) 128001.
+
+Example truncating_sync_witness :
+  (* repaired behaviour: the 7 unibi move, nothing is minted *)
+  map (bal (fst (deliver_cur [] e0 b4 t_wasm))) [0; 1; 14; 15]%nat = [999999871992; 128001; 7; 0] /\
+  supply (fst (deliver_cur [] e0 b4 t_wasm)) = 101000001000000 /\
+  (* code as it stands (numbers of the probe on the unchanged tree): phantom +7, supply +7 *)
+  map (bal (fst (deliver_cur [(14, 15)%nat] e0 b4 t_wasm))) [0; 1; 14; 15]%nat = [999999871992; 128001; 7; 7] /\
+  supply (fst (deliver_cur [(14, 15)%nat] e0 b4 t_wasm)) = 101000001000007 /\
+  snd (deliver_cur [(14, 15)%nat] e0 b4 t_wasm) = Ok.
+Proof. vm_compute. repeat split; reflexivity. Qed.
+
+Lemma b4_nonneg : nonneg (bal b4).
+Proof. intro a. do 16 (destruct a as [|a]; [vm_compute; congruence|]). vm_compute. congruence. Qed.
+
+Lemma t_wasm_wf : tx_wf e0 t_wasm.
+Proof. constructor; simpl; [lia|reflexivity]. Qed.
+
+Theorem truncating_sync_refuted :
+  exists e b t trunc, env_wf e /\ nonneg (bal b) /\ tx_wf e t /\
+    snd (deliver_cur trunc e b t) = Ok /\ supply (fst (deliver_cur trunc e b t)) > supply b /\
+    Pb (mk e b t (snd (deliver_cur trunc e b t)) (fst (deliver_cur trunc e b t))) = false.
+Proof.
+  exists e0, b4, t_wasm, [(14, 15)%nat].
+  split; [exact e0_wf|]. split; [exact b4_nonneg|]. split; [exact t_wasm_wf|].
+  vm_compute. repeat split; reflexivity.
+Qed.
+
+(** … while the repaired behaviour ([trunc] empty) is [deliver], for which the property is proved *)
+Lemma deliver_cur_repaired e b t : snd (deliver e b t) <> Stuck -> deliver_cur [] e b t = deliver e b t.
+Proof. unfold deliver_cur. destruct (deliver e b t) as [b1 o]. destruct o; reflexivity. Qed.
